@@ -4,6 +4,15 @@ import json
 import subprocess
 
 CLAIMED = {
+    "C19": dict(level="exploration",
+                text="History check against the recorded emission trace of each simulated run (hook: pass, file, line, segment, load address, "
+                     "phase, bytes as written and as held in the code buffer): the trace is first validated against the parsed code file, then "
+                     "the listing must be an order-preserving sub-sequence of it (address in list radix, code words), every MAP line:address "
+                     "entry must match a final-pass record, and listing symbol table, MAP symbols and share file must agree; run under forced "
+                     "extra passes and with a predecessor file in the same process, where stale renderer bookkeeping shows.",
+                note="Trusted: hook H4 (validated per run by rule 1), codefile.py, parsers of listing/MAP/share written from doc/file-formats.md and observed layout.",
+                technique="deterministic simulation: recorded emission history as witness under pass-schedule and file-history perturbation",
+                design="4. C19"),
     "C01": dict(level="exploration",
                 text="Seeded search over pass schedules and layouts: the simulator owns the pass loop through a hook (forced extra passes after "
                      "convergence, pass cap with per-pass symbol-state trace). Generated layouts for 6502/6809/68HC11/68000/8086 with auto-sized "
@@ -72,7 +81,7 @@ NA_PURE = {
     "C16": "metamorphic relation over source spelling; CR-LF/INCLUDE variants are different inputs, not schedules or faults",
     "C20": "diagnostic positions are a pure function of include/macro nesting of the input; no clock, fault or cross-file history involved",
 }
-PENDING = {k: "claimed in DESIGN.md; its check is still being built in this commit series" for k in ("C19",)}
+PENDING = {}
 
 ORDER = ["C01", "C02", "C03", "C04", "C17", "C18", "C19"]
 
